@@ -495,6 +495,8 @@ class Client:
             # like the reference
             w.stats["retries"] += 1
             self.attempt(op, [], retry_of=rec)
+        if w.stale_waiter is self:
+            w.stale_waiter = None      # the hazard sequence of this client is over
 
     def attempt(self, op, faults, retry_of):
         w = self.world
@@ -545,6 +547,9 @@ class World:
         self.signaled = False
         self.arrived = 0
         self.corrupt = {}      # file name -> persistent ("flip", bit) corruption
+        self.lib_fds = set()   # descriptors the library opened with os.open and still owns
+        self.os_opens = 0
+        self.stale_waiter = None   # client between a stale os.close and its next os.open
         self.live_args = []
         self.handles = []
         self.probes = {}
